@@ -175,11 +175,26 @@ def _tr(t, sp):
 
 # ----------------------------------------------------------------------------- real API calls
 
-def api_write(root, key, val, api, sp=1, species_override=None, charge_override=None):
-    """Write one key through the add_* (api='add') or update_* (api='update') front-end."""
+def corrupt_fields(f, val):
+    """names of the fields of the data handed to the write API (Repository.tla: Fields)"""
+    d = _input_form(f, val)
+    return sorted(d) if isinstance(d, dict) else []
+
+
+def api_write(root, key, val, api, sp=1, species_override=None, charge_override=None, corrupt=None):
+    """Write one key through the add_* (api='add') or update_* (api='update') front-end.
+    corrupt = (field, 'missing' | 'none' | 'text'): the field is removed / None / a word in the data handed over."""
     from cherab.openadas import repository as R
     f = key[0]
     d = _input_form(f, val)
+    if corrupt is not None:
+        fld, how = corrupt
+        if fld not in d:
+            raise core.MachineryError(f"no field {fld} in the data of {f}")
+        if how == "missing":
+            del d[fld]
+        else:
+            d[fld] = None if how == "none" else "abc"
     E = (lambda s: species_override if species_override is not None else _el(s))
     Q = (lambda q: charge_override if charge_override is not None else q)
     if f in ADF11:
@@ -322,12 +337,14 @@ def api_read(root, key, sp=1):
     return ("val", out)
 
 
-def api_reject(root, key, kind, api):
+def api_reject(root, key, kind, api, fld=None):
     """Attempt a single-entry write with invalid data. -> True if the library raised."""
     f = key[0]
     val = value(key, 1)
     try:
-        if kind == "charge":
+        if kind in ("missing", "none", "text"):
+            api_write(root, key, value(key, 2), api, corrupt=(fld, kind))
+        elif kind == "charge":
             main = {"thermal_cx": 3, "pec_thermal_cx": 3, "beam_cx": 2, "beam_stopping": 2, "beam_population": 3,
                     "beam_emission": 2}.get(f, 1)
             z = _el(key[main]).atomic_number
@@ -341,6 +358,8 @@ def api_reject(root, key, kind, api):
             api_write(root, key, bad, api)
         else:
             raise KeyError(kind)
+    except core.MachineryError:
+        raise
     except Exception:                            # noqa: BLE001
         return True
     return False
@@ -379,7 +398,7 @@ def _compare(root, universe, e, only_family=None):
     viol = []
     expect = {tuple(k): v for k, v in e["post"]}
     fam = _fam_of(e)
-    opname = (f"{fam}.install_{e['front']}" if e["op"] == "install" else f"{fam}.{e.get('api', 'update-multi')}") + (f"[reject-{e['kind']}]" if e["op"] == "reject" else "")
+    opname = (f"{fam}.install_{e['front']}" if e["op"] == "install" else f"{fam}.{e.get('api', 'update-multi')}") + (f"[reject-{e['kind']}" + (f"-{e['fld']}" if e.get("fld") else "") + "]" if e["op"] == "reject" else "")
     for key in universe:
         if only_family and key[0] != only_family:
             continue
@@ -431,8 +450,8 @@ def _step(root, e):
         except Exception as ex:          # noqa: BLE001
             return {"sig": f"{e['f']}.install_{e['front']}:raised-{type(ex).__name__}", "detail": repr(ex)[:300]}
     elif e["op"] == "reject":
-        if not api_reject(root, e["k"], e["kind"], e["api"]):
-            return {"unasserted": f"{e['k'][0]}.{e['api']}:accepted-invalid-{e['kind']}"}
+        if not api_reject(root, e["k"], e["kind"], e["api"], e.get("fld")):
+            return {"unasserted": f"{e['k'][0]}.{e['api']}:accepted-invalid-{e['kind']}" + (f"-{e['fld']}" if e.get("fld") else "")}
     return None
 
 
@@ -491,6 +510,7 @@ CONSTANTS
   MaxMulti = {maxmulti}
   InstFronts = {fronts}
   Probes = {probes}
+  FieldRejects = {fieldrej}
   SameFamily = {same}
 INVARIANT TypeOK
 INVARIANT LastWriteWins
@@ -502,6 +522,7 @@ ACTION_CONSTRAINT Emit
 
 def _run_edges(v, name, **kw):
     kw.setdefault("probes", "{FALSE}")
+    kw.setdefault("fieldrej", "FALSE")
     cfg = CFG.format(**kw)
     res = core.run_tlc("Repository", cfg, workers=1, seed=v.seed, tag="C06-" + name, timeout=3000)
     core.tlc_must_pass(res, "Repository/" + name)
@@ -524,11 +545,11 @@ def run(v):
     runs = []
     hd = '{"h", "d"}'
     if v.tier == "quick":
-        runs.append(("same-family-depth2", dict(species=hd, donors=hd, apis='{"add"}', maxhist=2, maxmulti=0, same="TRUE", fronts=ALLF, probes="{FALSE, TRUE}")))
+        runs.append(("same-family-depth2", dict(species=hd, donors=hd, apis='{"add"}', maxhist=2, maxmulti=0, same="TRUE", fronts=ALLF, probes="{FALSE, TRUE}", fieldrej="TRUE")))
         runs.append(("cross-family-depth1", dict(species='{"h", "d", "c"}', donors=hd, apis='{"add", "update"}', maxhist=1, maxmulti=0, same="FALSE", fronts=ALLF)))
         runs.append(("pair-updates-depth1", dict(species=hd, donors=hd, apis='{"update"}', maxhist=1, maxmulti=2, same="TRUE", fronts="{}")))
     else:
-        runs.append(("same-family-depth2", dict(species='{"h", "d", "c"}', donors=hd, apis='{"add", "update"}', maxhist=2, maxmulti=0, same="TRUE", fronts=ALLF, probes="{FALSE, TRUE}")))
+        runs.append(("same-family-depth2", dict(species='{"h", "d", "c"}', donors=hd, apis='{"add", "update"}', maxhist=2, maxmulti=0, same="TRUE", fronts=ALLF, probes="{FALSE, TRUE}", fieldrej="TRUE")))
         runs.append(("cross-family-depth1", dict(species='{"h", "d", "c"}', donors=hd, apis='{"add", "update"}', maxhist=1, maxmulti=2, same="FALSE", fronts=ALLF)))
         runs.append(("cross-family-depth2", dict(species=hd, donors='{"h"}', apis='{"add"}', maxhist=2, maxmulti=0, same="FALSE", fronts=ALLF)))
     unasserted = {}
